@@ -597,6 +597,19 @@ func genOracle(opname, opts string, root bool, e gEntry, before gNode, res genRe
 			return fmt.Sprintf("FAIL[C12] update rule says request=%v but the generator's request was %q (dest %s, entry %s, opts %q)", want, res.req, before, e, opts)
 		}
 	}
+	// ---- C12: an immediately repeated sync is a no-op: once the file was received under -t (or is compared
+	// by -c), the update rule must find it up to date
+	if e.kind == 'f' && res.outcome == "ok" && opname == "genrecv" && !h("n") && after.present && after.kind == 'f' &&
+		(res.req == "full" || res.req == "delta") && !h("c") && h("t") && !h("I") {
+		if after.size != e.size || after.mtime != e.mtime {
+			c12 := fmt.Sprintf("FAIL[C12] after the file was received with -t, a repeated sync would request it again: size %d mtime %d at the destination, %d / %d in the list", after.size, after.mtime, e.size, e.mtime)
+			if h("t") && after.mtime != e.mtime {
+				// the same observation is a C11 failure (mtime not reproduced)
+				c12 += fmt.Sprintf(" || FAIL[C11] -t: mtime %d, want %d", after.mtime, e.mtime)
+			}
+			return c12
+		}
+	}
 	// ---- C11: requested metadata is reproduced (only when not a dry run and the step succeeded)
 	if !h("n") && res.outcome == "ok" {
 		transferred := false
